@@ -1163,7 +1163,7 @@ def _t_keys(g):
             info.append((li, lo if lo[0] == 'c' or lo[0] == 'b' and all(x[0] != 'l' for x in _leaves(lo)) else C(0), st))
             if r.chance(1, 4):
                 c.locals.append(Local("w%d" % d, 'V', e=simp(B("sub", B("mul", L(li), C(3)), C(1)))))
-        if allow_derived_param and r.chance(1, 5):    # a parameter defined by an expression
+        if allow_derived_param and r.chance(1, 8):    # a parameter defined by an expression
             pos = r.range(1, len(c.locals))
             prev = [i for i in plist if i < pos]
             if prev:
@@ -1179,7 +1179,7 @@ def _t_keys(g):
                 plist = [i if i < pos else i + 1 for i in plist]
                 plist = sorted(plist + [pos])
         c.params = list(plist)
-        if allow_permuted and len(plist) > 1 and r.chance(1, 5):
+        if allow_permuted and len(plist) > 1 and r.chance(1, 8):
             c.params = r.shuffle(plist)
         c.flows.append(Flow("A", 'R', [Dep(True, None, ('M', [C(0)]))]))
         if r.chance(1, 3):
